@@ -192,8 +192,33 @@ func runC20(c *Ctx) {
 		hdrTTL := c.field("C20-R4", "github.com/miekg/dns.RR_Header.Ttl")
 		ceil := c.P.Object(pkg + ".noSOATTLCeiling")
 		if synA != nil && negTTL != nil && hdrTTL != nil && ceil != nil {
+			// builtin min only selects one of its operands and never exceeds any of them: the
+			// origins of the result are the origins of the operands.  (max is NOT seen through:
+			// max(ttl, k) raises the TTL above the fold, and stays a foreign origin.)
+			isMinMax := func(e *Expr, names ...string) bool {
+				e = strip(e)
+				if e == nil || e.K != ECall {
+					return false
+				}
+				for _, n := range names {
+					if e.Method == "builtin."+n {
+						return true
+					}
+				}
+				return false
+			}
+			selects := func(e *Expr) []int {
+				if !isMinMax(e, "min") {
+					return nil
+				}
+				idx := make([]int, len(strip(e).Args))
+				for i := range idx {
+					idx[i] = i
+				}
+				return idx
+			}
 			for _, in := range instrsWhere(fn, isPlainCallTo(synA)) {
-				c.OriginCheck("C20-R4", "C20-R4|synthesise|ttl argument", in, "ttl", callArg(in, 3), nil,
+				c.OriginCheck("C20-R4", "C20-R4|synthesise|ttl argument", in, "ttl", callArg(in, 3), selects,
 					CallTo(negTTL), FieldIs(hdrTTL), func(e *Expr) bool {
 						if e.K == EConst && e.Val != nil {
 							if k, ok := ceil.(*types.Const); ok {
@@ -204,14 +229,58 @@ func runC20(c *Ctx) {
 					})
 			}
 			// the fold only decreases: a.Hdr.Ttl flows into ttl only behind (a.Hdr.Ttl < ttl)
-			lt := OnCmp("a.Hdr.Ttl<ttl", FieldIs(hdrTTL), token.LSS, func(e *Expr) bool { return e.K == EPhi || e.K == EAlloc || CallTo(negTTL)(e) || IsAnyConst(e) }, true)
+			// — spelled as a compare-and-assign, or as ttl = min(ttl, a.Hdr.Ttl): the builtin
+			// keeps the smaller operand by definition; max over the same pair keeps the larger
+			running := func(e *Expr) bool { return e.K == EPhi || e.K == EAlloc || CallTo(negTTL)(e) || IsAnyConst(e) }
+			lt := OnCmp("a.Hdr.Ttl<ttl", FieldIs(hdrTTL), token.LSS, running, true)
 			var pts []Point
+			nMin, nMax := 0, 0
+			var maxAt token.Pos
 			for _, f := range scopeFuncs(fn) { // the fold may live in an extracted helper
 				pts = append(pts, edgePoints(f, lt)...)
+				for _, b := range f.Blocks {
+					for _, in := range b.Instrs {
+						cl, ok := in.(*ssa.Call)
+						if !ok || len(cl.Call.Args) != 2 {
+							continue
+						}
+						e := strip(Desc(cl))
+						if !isMinMax(e, "min", "max") || len(e.Args) != 2 {
+							continue
+						}
+						x, y := strip(e.Args[0]), strip(e.Args[1])
+						if !((FieldIs(hdrTTL)(x) && running(y)) || (FieldIs(hdrTTL)(y) && running(x))) {
+							continue
+						}
+						if isMinMax(e, "min") {
+							nMin++
+						} else {
+							nMax++
+							maxAt = in.Pos()
+						}
+					}
+				}
 			}
-			if len(pts) == 0 {
+			// an A TTL that reaches the argument as it is (not as an operand of min) is a
+			// plain assignment: that one needs the comparison edge
+			direct := false
+			for _, in := range instrsWhere(fn, isPlainCallTo(synA)) {
+				for _, l := range expandHelperLeaves(Origins(Desc(callArg(in, 3)), nil), nil, []Pat{CallTo(negTTL)}, 0) {
+					if FieldIs(hdrTTL)(l) {
+						direct = true
+					}
+				}
+			}
+			switch {
+			case direct && len(pts) == 0:
+				c.violation("C20-R4", "C20-R4|synthesise|min-fold guard", fn.Pos(), "an A TTL is assigned to ttl without an 'a.Hdr.Ttl < ttl' guard and not through min: the synthesised TTL is no longer the minimum of the A TTLs and the negative TTL")
+			case nMax > 0:
+				c.violation("C20-R4", "C20-R4|synthesise|min-fold guard", maxAt, "the A TTL and the running ttl are merged by builtin max: the synthesised TTL is the largest, not the minimum, of the A TTLs and the negative TTL")
+			case len(pts) == 0 && nMin == 0:
 				c.violation("C20-R4", "C20-R4|synthesise|min-fold guard", fn.Pos(), "no 'a.Hdr.Ttl < ttl' guard: the synthesised TTL is no longer the minimum of the A TTLs and the negative TTL")
-			} else {
+			case len(pts) == 0:
+				c.ok("C20-R4", "C20-R4|synthesise|min-fold guard", fn.Pos(), "A TTL lowers ttl only through builtin min(ttl, a.Hdr.Ttl)")
+			default:
 				c.ok("C20-R4", "C20-R4|synthesise|min-fold guard", fn.Pos(), "A TTL lowers ttl only behind a.Hdr.Ttl < ttl")
 			}
 			// chain copies: store to Ttl only behind Ttl > ttl
